@@ -82,3 +82,27 @@ func vs_validUTF8(s string) bool { return utf8.ValidString(s) }
 // model / operation (pascalize, then snakize): two definitions or operations that get distinct
 // Go names therefore get distinct files, and none overwrites another (C08).
 const vs_goNameFile = "{{ (snakize (pascalize .Name)) }}"
+
+// ---- C02: guards that drop validations inapplicable to the type ----
+
+// JSON-schema draft 4, section 5: each keyword family applies to one primitive type. A guard may
+// drop a family only for a type it does not apply to; for the type it applies to, what is handed
+// on (b) must be what was found (a).
+func vs_sameNumberValidations(a, b spec.SchemaValidations) bool {
+	return a.Maximum == b.Maximum && a.ExclusiveMaximum == b.ExclusiveMaximum && a.Minimum == b.Minimum &&
+		a.ExclusiveMinimum == b.ExclusiveMinimum && a.MultipleOf == b.MultipleOf
+}
+
+func vs_sameStringValidations(a, b spec.SchemaValidations) bool {
+	return a.MaxLength == b.MaxLength && a.MinLength == b.MinLength && a.Pattern == b.Pattern
+}
+
+func vs_sameArrayValidations(a, b spec.SchemaValidations) bool {
+	return a.MaxItems == b.MaxItems && a.MinItems == b.MinItems && a.UniqueItems == b.UniqueItems
+}
+
+func vs_sameObjectValidations(a, b spec.SchemaValidations) bool {
+	return a.MaxProperties == b.MaxProperties && a.MinProperties == b.MinProperties && vs_eq(a.PatternProperties, b.PatternProperties)
+}
+
+func vs_sameEnum(a, b spec.SchemaValidations) bool { return vs_same(a.Enum, b.Enum) }
